@@ -2,6 +2,7 @@ package harness
 
 import (
 	"fmt"
+	"os"
 	"strings"
 )
 
@@ -13,8 +14,15 @@ func GenC13(r *RNG) *SrvPlan {
 	maxHdr := Pick(r, 256, 4096, 0)
 	p.Srv = SrvCfg{MaxConcurrentStreams: mcs, PingInterval: -1, MaxRequestBodySize: maxBody, MaxHeaderListSize: maxHdr}
 	p.Peer = PeerCfg{InitialWindow: 1 << 20, MaxFrameSize: -1, HeaderTableSize: -1, AutoWindow: true, ConnWindowBoost: 1 << 24, LinkCap: Pick(r, 0, 4096)}
-	kind := Pick(r, "rapid-reset", "half-open", "priority-idle", "continuation-flood", "over-sent-body", "over-declared-body", "ping-flood", "settings-flood", "mixed")
+	kind := Pick(r, "rapid-reset", "half-open", "priority-idle", "continuation-flood", "continuation-long-field", "over-sent-body", "over-declared-body", "mis-declared-body", "ping-flood", "settings-flood", "mixed")
 	n := Pick(r, 40, 150, 400)
+	if k := os.Getenv("VERIF_C13_KIND"); k != "" {
+		kind = k // development aid: pin the attack kind
+	}
+	if kind == "continuation-long-field" {
+		n = Pick(r, 150, 600, 1500)
+		p.Peer.LinkCap = 0 // its frames are larger than the capped link lets through at once
+	}
 	p.Trail = "c13:" + kind
 	hdrs := func(rid int, end bool) Op {
 		return Op{Kind: "headers", Fields: []HF{{":method", "POST"}, {":scheme", "https"}, {":path", fmt.Sprintf("/a/%d", rid)}, {":authority", "example.com"}, {"x-rid", fmt.Sprint(rid)}}, EndStream: end, Pad: -1, TableSize: -1}
@@ -48,10 +56,36 @@ func GenC13(r *RNG) *SrvPlan {
 				l := Lane{Name: fmt.Sprintf("cont%d", rid), After: rid - 1, Offender: kind, Ops: []Op{{Kind: "raw", RawType: FContinuation, RawFlags: 0, RawHex: "00" + strings.Repeat("61", 1) + "01" + "62", LaneRef: 1, Pad: -1, TableSize: -1}}}
 				p.Lanes = append(p.Lanes, l)
 			}
+		case "continuation-long-field":
+			// one header block whose last field never completes: a literal with a declared value length of 2^28 octets,
+			// fed by CONTINUATION frames of 16 KiB each. Nothing is decoded, so MaxHeaderListSize never sees it.
+			switch i {
+			case 0:
+				h := hdrs(rid, false)
+				h.NoEndHdrs = true
+				addReq(h)
+			case 1:
+				// 00 = literal without indexing, new name; 01 61 = name "a"; 7f 81 ff ff 7f = value length 127 + (2^28-127)
+				l := Lane{Name: fmt.Sprintf("cont%d", rid), After: rid - 1, Offender: kind, Ops: []Op{{Kind: "raw", RawType: FContinuation, RawFlags: 0, RawHex: "0001617f81ffff7f", RawLen: 16000, LaneRef: 1, Pad: -1, TableSize: -1}}}
+				p.Lanes = append(p.Lanes, l)
+			default:
+				l := Lane{Name: fmt.Sprintf("cont%d", rid), After: rid - 1, Offender: kind, Ops: []Op{{Kind: "raw", RawType: FContinuation, RawFlags: 0, RawLen: 16384, LaneRef: 1, Pad: -1, TableSize: -1}}}
+				p.Lanes = append(p.Lanes, l)
+			}
 		case "over-sent-body":
 			ops := []Op{hdrs(rid, false)}
 			for k := 0; k < 4; k++ {
 				ops = append(ops, Op{Kind: "data", Len: maxBody/2 + 1, Pad: -1, TableSize: -1, EndStream: k == 3})
+			}
+			addReq(ops...)
+		case "mis-declared-body":
+			// a declared length that says nothing about what follows (zero, or one that does not fit an int), then more
+			// DATA than MaxRequestBodySize with END_STREAM withheld, so that the length is never compared with the body
+			h := hdrs(rid, false)
+			h.Fields = append(h.Fields, HF{"content-length", Pick(r, "0", "0", "9223372036854775808", "1")})
+			ops := []Op{h}
+			for k := 0; k < 6; k++ {
+				ops = append(ops, Op{Kind: "data", Len: maxBody/2 + 1, Pad: -1, TableSize: -1})
 			}
 			addReq(ops...)
 		case "over-declared-body":
@@ -69,7 +103,7 @@ func GenC13(r *RNG) *SrvPlan {
 	for i := 0; i < n; i++ {
 		k := kind
 		if kind == "mixed" {
-			k = Pick(r, "rapid-reset", "half-open", "over-sent-body", "over-declared-body", "ping-flood")
+			k = Pick(r, "rapid-reset", "half-open", "over-sent-body", "over-declared-body", "mis-declared-body", "ping-flood")
 		}
 		one(k, i)
 	}
@@ -144,6 +178,25 @@ func c13AtQuiescence(w *SrvWorld) *Violation {
 			return &Violation{Property: "C13", Rule: "live-objects", Sig: "live-objects/" + kind + "/" + shortType(st.Name),
 				Detail: fmt.Sprintf("%d live %s objects after a flood of %d frames (%s) with MaxConcurrentStreams=%d: bound %d; the count follows the number of frames, not the limits",
 					st.Live, st.Name, w.opsSent, kind, mcs, bound)}
+		}
+	}
+	if lim := w.plan.Srv.MaxRequestBodySize; lim > 0 && len(w.GoAways) == 0 {
+		for _, l := range w.lanes {
+			if l.id == 0 || !l.sentAll {
+				continue
+			}
+			sent := 0
+			for _, op := range l.lane.Ops {
+				if op.Kind == "data" {
+					sent += op.Len
+				}
+			}
+			ps := w.Streams[l.id]
+			refused := ps != nil && (len(ps.RST) > 0 || ps.EndStreams > 0)
+			if sent > lim && !refused {
+				return &Violation{Property: "C13", Rule: "body-over-limit-accepted", Sig: "body-over-limit-accepted/" + kind,
+					Detail: fmt.Sprintf("stream %d: the peer has sent %d bytes of DATA, every frame delivered and processed, MaxRequestBodySize=%d, and the server has neither reset the stream nor ended the connection: it is buffering a body larger than the limit (%s)", l.id, sent, lim, kind)}
+			}
 		}
 	}
 	total := 0
